@@ -43,82 +43,54 @@ const KINDS: [Option<BoundKind>; 6] = [
     None,
 ];
 
-fn member(name: &str, list: &[&str]) -> bool {
-    let n = name.as_bytes();
+/// Checks the rows of one list: every name of `names` against every kind.
+/// `owner` is the kind whose immutable payload the list is (None for the
+/// ordinary names): no name occurs in two lists, so the (kind, field) pairs
+/// whose assignment rewrites immutable payload are exactly `kind == owner`.
+fn rows(names: &[&str], owner: Option<BoundKind>) {
     let mut i = 0;
-    while i < list.len() {
-        let l = list[i].as_bytes();
-        if l.len() == n.len() {
-            let mut j = 0;
-            let mut same = true;
-            while j < l.len() {
-                if l[j] != n[j] {
-                    same = false;
-                }
-                j += 1;
+    while i < names.len() {
+        let mut k = 0;
+        while k < 6 {
+            let kind = KINDS[k];
+            let r = guard_immutable_field(names[i], kind);
+            if owner.is_some() && kind == owner {
+                // the property: immutable payload of the bound kind cannot be assigned
+                assert!(r.is_err(), "OBL:C16.imm.table");
+            } else {
+                // documented meaning ("UPDATE reaches mutable state"; kml.rs test
+                // `update_rejects_immutable_payload`: `confidence` on a CONCEPT is
+                // accepted): the guard refuses nothing but the listed payload of
+                // the bound kind
+                assert!(r.is_ok(), "OBL:C16.imm.only_payload_rejected");
             }
-            if same {
-                return true;
-            }
+            k += 1;
         }
         i += 1;
-    }
-    false
-}
-
-/// The (kind, field) pairs whose assignment rewrites immutable payload.
-fn spec_immutable(kind: Option<BoundKind>, field: &str) -> bool {
-    match kind {
-        Some(BoundKind::Assertion) => member(field, &SPEC_ASSERTION),
-        Some(BoundKind::Evidence) => member(field, &SPEC_EVIDENCE),
-        Some(BoundKind::Proposition) => member(field, &SPEC_PROPOSITION),
-        _ => false,
-    }
-}
-
-/// Checks one row of the table: every kind against `field`.
-fn row(field: &str) {
-    let mut k = 0;
-    while k < 6 {
-        let kind = KINDS[k];
-        let r = guard_immutable_field(field, kind);
-        if spec_immutable(kind, field) {
-            // the property: immutable payload of the bound kind cannot be assigned
-            assert!(r.is_err(), "OBL:C16.imm.table");
-        } else {
-            // documented meaning ("UPDATE reaches mutable state"; kml.rs test
-            // `update_rejects_immutable_payload`: `confidence` on a CONCEPT is accepted):
-            // the guard refuses nothing but the listed payload of the bound kind
-            assert!(r.is_ok(), "OBL:C16.imm.only_payload_rejected");
-        }
-        k += 1;
     }
 }
 
 /// `guard_immutable_field` over the complete finite table: 6 kinds (five
-/// `BoundKind`s + unbound) × (10 + 5 + 3 listed names + 3 ordinary names).
-/// All strings concrete: exhaustive for the table.
+/// `BoundKind`s + unbound) x (10 + 5 + 3 listed names + 3 ordinary names).
+/// All strings concrete: exhaustive for the table. (Two harnesses only to run
+/// in parallel.)
 #[kani::proof]
 #[kani::unwind(16)]
-fn c16_imm_field_table() {
-    let mut i = 0;
-    while i < 10 {
-        row(SPEC_ASSERTION[i]);
-        i += 1;
-    }
-    let mut i = 0;
-    while i < 5 {
-        row(SPEC_EVIDENCE[i]);
-        i += 1;
-    }
-    let mut i = 0;
-    while i < 3 {
-        row(SPEC_PROPOSITION[i]);
-        row(ORDINARY[i]);
-        i += 1;
-    }
+fn c16_imm_field_table_assertion() {
+    rows(&SPEC_ASSERTION, Some(BoundKind::Assertion));
     kani::cover!(guard_immutable_field("stance", Some(BoundKind::Assertion)).is_err(), "COVER:rejected");
     kani::cover!(guard_immutable_field("stance", Some(BoundKind::Concept)).is_ok(), "COVER:accepted");
+    kani::cover!(true, "COVER:reach");
+}
+
+#[kani::proof]
+#[kani::unwind(16)]
+fn c16_imm_field_table_others() {
+    rows(&SPEC_EVIDENCE, Some(BoundKind::Evidence));
+    rows(&SPEC_PROPOSITION, Some(BoundKind::Proposition));
+    rows(&ORDINARY, None);
+    kani::cover!(guard_immutable_field("payload", Some(BoundKind::Evidence)).is_err(), "COVER:rejected");
+    kani::cover!(guard_immutable_field("n", Some(BoundKind::Evidence)).is_ok(), "COVER:accepted");
     kani::cover!(true, "COVER:reach");
 }
 
@@ -138,119 +110,146 @@ fn c16_imm_structural_table() {
 }
 
 // ---------------------------------------------------------------------------
-// guard_update: the wiring WHERE-bound kind -> guards, on concrete UPDATE trees
+// guard_update / validate_clause: the wiring WHERE-bound kind -> guards, on
+// concrete UPDATE trees
 // ---------------------------------------------------------------------------
+// Trees are built over stack arrays and static string bytes (never dropped,
+// never grown; the code under contract only takes `&`): with heap-built
+// `Vec`/`String` no cell finished in 10 min (CBMC loses constant propagation on
+// the enum discriminants), with stack-built ones a cell takes seconds.
 
-fn s(x: &str) -> String {
-    String::from(x)
+pub(super) fn stub_format(_args: core::fmt::Arguments<'_>) -> String {
+    String::new()
 }
 
-/// `?var <KIND> ...` with an empty matcher (0 Assertion, 1 Evidence,
-/// 2 Proposition, 3 Concept, 4 Activity).
-fn bind(kind: usize, var: &str) -> WhereClause {
+fn sv(x: &'static str) -> String {
+    unsafe { String::from_raw_parts(x.as_ptr() as *mut u8, x.len(), x.len()) }
+}
+
+macro_rules! stack_vec {
+    ($name:ident = [$($e:expr),*]) => {
+        let mut buf = ManuallyDrop::new([$($e),*]);
+        let $name = unsafe { Vec::from_raw_parts(buf.as_mut_ptr(), buf.len(), buf.len()) };
+    };
+}
+
+const ASSERTION: usize = 0;
+const EVIDENCE: usize = 1;
+const PROPOSITION: usize = 2;
+const CONCEPT: usize = 3;
+const ACTIVITY: usize = 4;
+
+/// `?var <KIND> ...` with an empty matcher.
+fn bind(kind: usize, var: &'static str) -> WhereClause {
     match kind {
-        0 => WhereClause::Assertion { variable: s(var), matcher: ObjectMatcher::new() },
-        1 => WhereClause::Evidence { variable: s(var), matcher: ObjectMatcher::new() },
-        2 => WhereClause::Proposition {
-            variable: Some(s(var)),
-            matcher: PropositionMatcher::Id(Scalar::Param(s("p"))),
+        ASSERTION => WhereClause::Assertion { variable: sv(var), matcher: ObjectMatcher::new() },
+        EVIDENCE => WhereClause::Evidence { variable: sv(var), matcher: ObjectMatcher::new() },
+        PROPOSITION => WhereClause::Proposition {
+            variable: Some(sv(var)),
+            matcher: PropositionMatcher::Id(Scalar::Param(sv("p"))),
         },
-        3 => WhereClause::Concept { variable: s(var), matcher: ObjectMatcher::new() },
-        _ => WhereClause::Activity { variable: s(var), matcher: ObjectMatcher::new() },
+        CONCEPT => WhereClause::Concept { variable: sv(var), matcher: ObjectMatcher::new() },
+        _ => WhereClause::Activity { variable: sv(var), matcher: ObjectMatcher::new() },
     }
 }
 
-/// `UPDATE ?t <action> WHERE { <clauses> }`
-fn update(action: UpdateAction, clauses: Vec<WhereClause>) -> ManuallyDrop<UpdateStatement> {
+fn val() -> MutationValue {
+    MutationValue::Param(sv("v"))
+}
+
+/// `UPDATE ?t <actions> WHERE { <clauses> }`
+fn update(actions: Vec<UpdateAction>, clauses: Vec<WhereClause>) -> ManuallyDrop<UpdateStatement> {
     ManuallyDrop::new(UpdateStatement {
-        target: ElementRef::Handle(s("t")),
+        target: ElementRef::Handle(sv("t")),
         expect_version: None,
-        actions: vec![action],
+        actions,
         where_clauses: Some(clauses),
         limit: None,
     })
 }
 
-fn set_field(name: &str) -> UpdateAction {
-    UpdateAction::SetFields(vec![(s(name), MutationValue::Param(s("v")))])
+/// `UPDATE ?t SET FIELDS {<name>: :v} WHERE { ?t <KIND> {} }` — rejected by `guard_update`?
+fn field_update_rejected(kind: usize, name: &'static str) -> bool {
+    stack_vec!(a = [(sv(name), val())]);
+    stack_vec!(acts = [UpdateAction::SetFields(a)]);
+    stack_vec!(wh = [bind(kind, "t")]);
+    guard_update(&update(acts, wh)).is_err()
 }
 
-/// `UPDATE ?t SET FIELDS {<name>: :v} WHERE { ?t <KIND> {} }` for every name of
-/// the kind's immutable payload ⇒ rejected.
-fn update_rows(kind: usize, names: &[&str]) {
-    let mut i = 0;
-    while i < names.len() {
-        let st = update(set_field(names[i]), vec![bind(kind, "t")]);
-        assert!(guard_update(&st).is_err(), "OBL:C16.imm.update_payload_rejected");
-        i += 1;
-    }
-}
-
+/// One immutable payload field per record kind, bound at the top level of WHERE.
 #[kani::proof]
 #[kani::unwind(16)]
-fn c16_imm_update_assertion() {
-    update_rows(0, &SPEC_ASSERTION);
-    kani::cover!(true, "COVER:reach");
-}
-
-#[kani::proof]
-#[kani::unwind(16)]
-fn c16_imm_update_evidence() {
-    update_rows(1, &SPEC_EVIDENCE);
-    kani::cover!(true, "COVER:reach");
-}
-
-#[kani::proof]
-#[kani::unwind(16)]
-fn c16_imm_update_proposition() {
-    update_rows(2, &SPEC_PROPOSITION);
-    // the same names on a CONCEPT are ordinary fields (kml.rs test
+fn c16_imm_update_fields() {
+    assert!(field_update_rejected(ASSERTION, "confidence"), "OBL:C16.imm.update_payload_rejected");
+    assert!(field_update_rejected(EVIDENCE, "payload"), "OBL:C16.imm.update_payload_rejected");
+    assert!(field_update_rejected(PROPOSITION, "subject"), "OBL:C16.imm.update_payload_rejected");
+    // the same name on a CONCEPT is an ordinary field (kml.rs test
     // `update_rejects_immutable_payload`): reachable acceptance
-    let st = update(set_field("subject"), vec![bind(3, "t")]);
-    kani::cover!(guard_update(&st).is_ok(), "COVER:concept_accepted");
+    kani::cover!(!field_update_rejected(CONCEPT, "confidence"), "COVER:concept_accepted");
     kani::cover!(true, "COVER:reach");
 }
 
 /// The kind is found when the binding pattern is not the first pattern and when
 /// it sits inside OPTIONAL / UNION / NOT (depth 1 and 2), and the immutable
-/// field is not the first assignment of the block.
+/// field is not the first assignment of the block / the first action.
 #[kani::proof]
 #[kani::unwind(16)]
 fn c16_imm_update_nested() {
     // second pattern of the block
-    let st = update(set_field("stance"), vec![bind(3, "c"), bind(0, "t")]);
-    assert!(guard_update(&st).is_err(), "OBL:C16.imm.update_payload_rejected");
-    // inside OPTIONAL / UNION / NOT
-    let st = update(set_field("payload"), vec![WhereClause::Optional(vec![bind(1, "t")])]);
-    assert!(guard_update(&st).is_err(), "OBL:C16.imm.update_payload_rejected");
-    let st = update(set_field("object"), vec![WhereClause::Union(vec![bind(2, "t")])]);
-    assert!(guard_update(&st).is_err(), "OBL:C16.imm.update_payload_rejected");
-    let st = update(set_field("mode"), vec![WhereClause::Not(vec![bind(0, "t")])]);
-    assert!(guard_update(&st).is_err(), "OBL:C16.imm.update_payload_rejected");
-    // depth 2
-    let st = update(
-        set_field("confidence"),
-        vec![WhereClause::Union(vec![WhereClause::Optional(vec![bind(0, "t")])])],
-    );
-    assert!(guard_update(&st).is_err(), "OBL:C16.imm.update_payload_rejected");
-    // second assignment of the block
-    let st = update(
-        UpdateAction::SetFields(vec![
-            (s("n"), MutationValue::Param(s("v"))),
-            (s("valid_time"), MutationValue::Param(s("v"))),
-        ]),
-        vec![bind(0, "t")],
-    );
-    assert!(guard_update(&st).is_err(), "OBL:C16.imm.update_payload_rejected");
+    {
+        stack_vec!(a = [(sv("stance"), val())]);
+        stack_vec!(acts = [UpdateAction::SetFields(a)]);
+        stack_vec!(wh = [bind(CONCEPT, "c"), bind(ASSERTION, "t")]);
+        assert!(guard_update(&update(acts, wh)).is_err(), "OBL:C16.imm.update_payload_rejected");
+    }
+    // inside OPTIONAL
+    {
+        stack_vec!(a = [(sv("media_type"), val())]);
+        stack_vec!(acts = [UpdateAction::SetFields(a)]);
+        stack_vec!(inner = [bind(EVIDENCE, "t")]);
+        stack_vec!(wh = [WhereClause::Optional(inner)]);
+        assert!(guard_update(&update(acts, wh)).is_err(), "OBL:C16.imm.update_payload_rejected");
+    }
+    // inside UNION, after an ordinary pattern
+    {
+        stack_vec!(a = [(sv("object"), val())]);
+        stack_vec!(acts = [UpdateAction::SetFields(a)]);
+        stack_vec!(inner = [bind(PROPOSITION, "t")]);
+        stack_vec!(wh = [bind(CONCEPT, "c"), WhereClause::Union(inner)]);
+        assert!(guard_update(&update(acts, wh)).is_err(), "OBL:C16.imm.update_payload_rejected");
+    }
+    // depth 2: NOT { OPTIONAL { ?t ASSERTION } }
+    {
+        stack_vec!(a = [(sv("mode"), val())]);
+        stack_vec!(acts = [UpdateAction::SetFields(a)]);
+        stack_vec!(inner2 = [bind(ASSERTION, "t")]);
+        stack_vec!(inner1 = [WhereClause::Optional(inner2)]);
+        stack_vec!(wh = [WhereClause::Not(inner1)]);
+        assert!(guard_update(&update(acts, wh)).is_err(), "OBL:C16.imm.update_payload_rejected");
+    }
+    // second assignment of the block, in the second action
+    {
+        stack_vec!(a0 = [(sv("n"), val())]);
+        stack_vec!(a = [(sv("n"), val()), (sv("valid_time"), val())]);
+        stack_vec!(acts = [UpdateAction::SetAttributes(a0), UpdateAction::SetFields(a)]);
+        stack_vec!(wh = [bind(ASSERTION, "t")]);
+        assert!(guard_update(&update(acts, wh)).is_err(), "OBL:C16.imm.update_payload_rejected");
+    }
     kani::cover!(true, "COVER:reach");
 }
 
-fn edge() -> StructuralEdge {
-    StructuralEdge { field: SymbolRef::Name(s("f")), value: MutationValue::Param(s("v")), options: None }
+fn set_structural_rejected(kind: usize) -> bool {
+    stack_vec!(e = [StructuralEdge { field: SymbolRef::Name(sv("f")), value: val(), options: None }]);
+    stack_vec!(acts = [UpdateAction::SetStructural(e)]);
+    stack_vec!(wh = [bind(kind, "t")]);
+    guard_update(&update(acts, wh)).is_err()
 }
 
-fn removal() -> StructuralRemoval {
-    StructuralRemoval { field: SymbolRef::Name(s("f")), value: MutationValue::Param(s("v")) }
+fn unset_structural_rejected(kind: usize) -> bool {
+    stack_vec!(r = [StructuralRemoval { field: SymbolRef::Name(sv("f")), value: val() }]);
+    stack_vec!(acts = [UpdateAction::UnsetStructural(r)]);
+    stack_vec!(wh = [bind(kind, "t")]);
+    guard_update(&update(acts, wh)).is_err()
 }
 
 /// `UPDATE ?t SET|UNSET STRUCTURAL {...} WHERE { ?t <record kind> }` ⇒ rejected
@@ -258,16 +257,37 @@ fn removal() -> StructuralRemoval {
 #[kani::proof]
 #[kani::unwind(4)]
 fn c16_imm_update_structural() {
-    let recs = [0usize, 1, 2, 4];
-    let mut k = 0;
-    while k < 4 {
-        let st = update(UpdateAction::SetStructural(vec![edge()]), vec![bind(recs[k], "t")]);
-        assert!(guard_update(&st).is_err(), "OBL:C16.imm.update_structural_rejected");
-        let st = update(UpdateAction::UnsetStructural(vec![removal()]), vec![bind(recs[k], "t")]);
-        assert!(guard_update(&st).is_err(), "OBL:C16.imm.update_structural_rejected");
-        k += 1;
+    assert!(set_structural_rejected(ASSERTION), "OBL:C16.imm.update_structural_rejected");
+    assert!(set_structural_rejected(EVIDENCE), "OBL:C16.imm.update_structural_rejected");
+    assert!(set_structural_rejected(PROPOSITION), "OBL:C16.imm.update_structural_rejected");
+    assert!(set_structural_rejected(ACTIVITY), "OBL:C16.imm.update_structural_rejected");
+    assert!(unset_structural_rejected(ASSERTION), "OBL:C16.imm.update_structural_rejected");
+    assert!(unset_structural_rejected(EVIDENCE), "OBL:C16.imm.update_structural_rejected");
+    kani::cover!(!set_structural_rejected(CONCEPT), "COVER:concept_accepted");
+    kani::cover!(true, "COVER:reach");
+}
+
+/// The tree validator applies the guards: `validate_clause` rejects the UPDATE
+/// that rewrites Assertion payload and the one that edits Evidence topology.
+#[kani::proof]
+#[kani::unwind(16)]
+#[kani::stub(alloc::fmt::format, stub_format)]
+fn c16_imm_clause_applies_guards() {
+    {
+        stack_vec!(a = [(sv("confidence"), val())]);
+        stack_vec!(acts = [UpdateAction::SetFields(a)]);
+        stack_vec!(wh = [bind(ASSERTION, "t")]);
+        let c = ManuallyDrop::new(MutationClause::Update(ManuallyDrop::into_inner(update(acts, wh))));
+        let r = ManuallyDrop::new(validate_clause(&c));
+        assert!(r.is_err(), "OBL:C16.imm.clause_applies_guards");
     }
-    let st = update(UpdateAction::SetStructural(vec![edge()]), vec![bind(3, "t")]);
-    kani::cover!(guard_update(&st).is_ok(), "COVER:concept_accepted");
+    {
+        stack_vec!(e = [StructuralEdge { field: SymbolRef::Name(sv("f")), value: val(), options: None }]);
+        stack_vec!(acts = [UpdateAction::SetStructural(e)]);
+        stack_vec!(wh = [bind(EVIDENCE, "t")]);
+        let c = ManuallyDrop::new(MutationClause::Update(ManuallyDrop::into_inner(update(acts, wh))));
+        let r = ManuallyDrop::new(validate_clause(&c));
+        assert!(r.is_err(), "OBL:C16.imm.clause_applies_guards");
+    }
     kani::cover!(true, "COVER:reach");
 }
